@@ -255,7 +255,7 @@ PROPS = {
     "C14": dict(
         pkg=".", test="TestVerifC14", model="C14", verdict="C14v", level="other", diff_is_failure=False, stateless=True,
         accept=lambda m, o: m == "-" or m == o,
-        also=["C14d", "C14f", "C14p", "C20", "C12r"],
+        also=["C14d", "C14f", "C14p", "C14k", "C20", "C12r"],
         rule="a case builds a component in a synctest bubble, starts 1-3 operations (closest peers / get / search / put / provide / find "
              "providers / forced refresh) on a scripted network, answers 0-11 of their requests, then calls Close (once or twice "
              "concurrently) while the rest is outstanding; or makes a constructor fail after it has started background work. Required: "
@@ -272,6 +272,11 @@ PROPS = {
                  accept=lambda m, o: m == "-" or m == o, rule="Close of the dual DHT with operations in flight; LAN construction failing after the WAN DHT was started", trusted=[], shards={"quick": 4, "thorough": 8}),
     "C14f": dict(pkg="./fullrt", test="TestVerifC14f", model="C14", verdict="C14v", level="other", diff_is_failure=False, stateless=True,
                  accept=lambda m, o: m == "-" or m == o, rule="Close of the accelerated client with operations in flight; NewFullRT failing in the provider manager option", trusted=[], shards={"quick": 4, "thorough": 8}),
+    # sibling harness of C14: Close called concurrently on fresh keystores (real clock, real goroutines)
+    "C14k": dict(pkg="./provider/keystore", test="TestVerifC14k", model="C14k", level="other", diff_is_failure=True, stateless=True,
+                 rule="several goroutines call Close on a fresh keystore (plain / resettable) at the same moment, tens of thousands of rounds; "
+                      "none may panic", trusted=["timing decides whether a panic is met; none can be reported falsely"],
+                 shards={"quick": 2, "thorough": 4}, gomaxprocs="8"),
     "C14p": dict(pkg="./provider", test="TestVerifC14p", model="C14", verdict="C14v", level="other", diff_is_failure=False, stateless=True,
                  accept=lambda m, o: m == "-" or m == o, rule="Close of the sweeping provider / buffered wrapper when idle, mid-cycle, with sends hanging (few or many recipients, 1-2 connections per worker), and offline", trusted=[], shards={"quick": 4, "thorough": 8},
                  # a Close that hangs behind a sync.Once cannot be seen by the bubble (a goroutine parked on a mutex is not durably
